@@ -91,6 +91,12 @@ struct Harness
     }
     // how many runs one child process executes (micro-runs are batched)
     virtual int batch(const std::string& property) const { return 1; }
+    virtual int batch(const std::string& property,
+                      const std::string& profile) const
+    {
+        (void)profile;
+        return batch(property);
+    }
     // non-triviality rule over a finished run's probes
     virtual bool nontrivial(const std::string& property,
                             const std::map<std::string, uint64_t>& probes) const
